@@ -1080,6 +1080,8 @@ add_data:
 
 fail:
   if (lg_xmit) {
+    if (pdu->lg_xmit == lg_xmit)
+      pdu->lg_xmit = NULL;
     coap_block_delete_lg_xmit(session, lg_xmit);
   } else if (release_func) {
     coap_lock_callback(session->context, release_func(session, app_ptr));
